@@ -320,7 +320,7 @@ def section6():
            '(the pinned 155-test baseline passes after each; `tools_baseline.sh`) or recorded as an open known finding.\n',
            '### 6.1 Open known findings (reported as `KNOWN-FINDING`, exit 0)\n',
            'They have two root causes, neither of which can be repaired without breaking another property. (1) `MatrixLog3` is the reference Modern Robotics algorithm, which extracts the angle from the trace; '
-           'next to π the trace is flat and half the digits are lost (C01, C03, C13, C18, C10-plate-pose-near-half-turn). (2) The 1e-6 `NearZero` cut-off of the exponential and the logarithm snaps rotations strictly inside (0, 1e-6) to the identity, which is part of the same reference semantics (C12, C05, C10-relative-rotation-band). C02 pins the port to the reference to 1e-9, so a more accurate logarithm or a removed cut-off would violate C02. Where the symptom could be removed one layer up without touching the kernels it was (`fix:` 89bbf50: the arm keeps its tool home by matrix products).\n',
+           'next to π the trace is flat and half the digits are lost (C01, C03, C13, C18, C10-plate-pose-near-half-turn). (2) The 1e-6 `NearZero` cut-off of the exponential and the logarithm snaps rotations strictly inside (0, 1e-6) to the identity, which is part of the same reference semantics (C12, C05, C10-relative-rotation-band). C02 pins the port to the reference to 1e-9, so a more accurate logarithm or a removed cut-off would violate C02. Where the symptom could be removed one layer up without touching the kernels it was (`fix:` 89bbf50: the arm keeps its tool home by matrix products). A third kind (C02-ik-excursion-branch) is the Newton iteration of the reference IK itself: from starts that send it tens of radians away it is chaotic, and port and reference settle on different solutions.\n',
            '| id | property | what fails | where |', '|---|---|---|---|']
     for f in kf:
         if f['status'] == 'open':
